@@ -103,7 +103,10 @@ def gen_case(rng, tier):
 
 def generate(rng, tier):
     n = 100 if tier == "quick" else 1200
-    return [gen_case(rng, tier) for _ in range(n)]
+    cases = [gen_case(rng, tier) for _ in range(n)]
+    for c in cases:
+        c["history"] = rng.choice([None, None, "before", "before", "after", "both"])
+    return cases
 
 
 def argmax(t):
@@ -163,10 +166,21 @@ def run_impl(case):
     nq = len(case["qs"])
     Q = np.array(case["qs"], dtype=np.float32).reshape([nq] + case["shape"])
     QT = np.array(case["qtargets"], dtype=np.float32)
+    def other_call():
+        # another call of the SAME size on the same object: other queries, classes shifted by one (other admissible sets)
+        Qo, QTo = (0.5 - np.roll(Q, 1, axis=0)).astype(np.float32), np.roll(QT, 1, axis=1)
+        if case["method"] == "label":
+            expl.explain(Qo, QTo, np.roll(np.array(case["cf"], dtype=np.float32), 1, axis=1))
+        else:
+            expl.explain(Qo, QTo)
+    if case.get("history") in ("before", "both"):
+        other_call()
     if case["method"] == "label":
         out = expl.explain(Q, QT, np.array(case["cf"], dtype=np.float32))
     else:
         out = expl.explain(Q, QT)
+    if case.get("history") in ("after", "both"):
+        other_call()               # the first result is read only after a later call (results collected in a list)
     out = {k: v for k, v in out.items() if v is not None}
     return c16.collect(case, out, nq, extra=("nuns", "dist_to_nuns", "nuns_labels", "nuns_indices"))
 
